@@ -16,6 +16,29 @@ def _hist_nontrivial(sx, v, meta):
     return v[0] == 'ok' and len(v[2]) > 0 and int(v[2][0]) >= 2
 
 PROPS = {
+    'C11': dict(
+        judge='C11', judge_module='Judge.J11', judge_fn='judge_C11',
+        cases=dict(quick=10000, thorough=100000),
+        rule='random formula trees, depth 1..4 over 1..5 (6 thorough) names: variables, constants at every position, negation, '
+             'n-ary and/or with 0..3 subformulas, implies, equivalence, xor, exactly-one groups of 0..7 names; 10% exactly-one '
+             'groups of 0..9 names alone or conjoined, a quarter of them negated; 10% alternating or/and nests of depth 2..4; the '
+             'returned map is checked under EVERY completion of the variables it does not mention; non-trivial = satisfiable and '
+             'the model mentions at least 2 variables',
+        nontrivial=lambda sx, v, meta: v[0] == 'ok' and len(v[2]) > 1 and int(v[2][1]) >= 2,
+        stats=_verdict_stats,
+        assumptions=[],
+    ),
+    'C12': dict(
+        judge='C12', judge_module='Judge.J11', judge_fn='judge_C12',
+        cases=dict(quick=8000, thorough=80000),
+        rule='the C11 formula generator with exactly-one groups in positive positions only; the exported text is split into header, '
+             'name comments and clauses; header counts, literal ranges, distinctness of the name/index map are checked and, for '
+             'EVERY assignment of the formula variables, "the formula is true" is compared with "the export has a model agreeing '
+             'with it on the named variables" (verified reference search); non-trivial = formula with at least one model and an '
+             'export of at least 2 variables',
+        nontrivial=lambda sx, v, meta: v[0] == 'ok' and len(v[2]) > 2 and int(v[2][0]) > 0 and int(v[2][1]) >= 2,
+        assumptions=[],
+    ),
     'C06': dict(
         judge='C06', judge_module='Judge.J06', judge_fn='judge_C06',
         cases=dict(quick=9000, thorough=60000),
